@@ -10,15 +10,16 @@
 (* A split result is a sequence of byte ranges <<s, e>> (0-based, e        *)
 (* exclusive): where each returned piece lies in the text.                 *)
 (*                                                                         *)
-(* CONTRACT  SplitOK(runs, ranges, unit, limit, cpt):                      *)
+(* CONTRACT  SplitOK(runs, ranges, sizes, unit, limit, cpt):               *)
 (*   Increasing   ranges are within the text, in order and disjoint        *)
 (*   OnBoundaries every range starts and ends on a character boundary      *)
 (*                (=> every piece is valid UTF-8 whenever the text is)     *)
 (*   Conserved    every non-white character lies inside some range         *)
 (*   SizeBound    if the unit is characters or tokens, limit >= MinLimit   *)
 (*                and a break (1-byte space/newline) occurs at least every *)
-(*                BreakEvery bytes, no range holds more than limit         *)
-(*                characters (tokens: characters \div cpt)                 *)
+(*                BreakEvery bytes, no piece holds more than limit         *)
+(*                characters (tokens: characters \div cpt), white space    *)
+(*                around the piece aside                                   *)
 (*                                                                         *)
 (* IMPLEMENTATION-SHAPED LAYER: the loop of rag.SizeCalculator.SplitToSize *)
 (* with FindSplitPointAt / findSentenceEndNear / findWordBoundaryNear on    *)
@@ -122,23 +123,23 @@ BoundPromised(rs, u, lim) ==
     /\ lim >= MinLimit
     /\ MaxRun(rs) < BreakEvery
 
-SizeOf(rs, st, u, cpt, s, e) ==
-    IF u = "tokens" THEN CharsIn(rs, st, s, e) \div cpt ELSE CharsIn(rs, st, s, e)
-
-SizeBound(rs, st, ranges, u, lim, cpt) ==
+\* sizes[i] = number of characters of piece i without surrounding white space.
+\* For a piece that is a literal part of the text this is CharsIn of its range; a
+\* chunker that re-joins sentences with single spaces reports the piece's own count.
+SizeBound(rs, sizes, u, lim, cpt) ==
     BoundPromised(rs, u, lim) =>
-        \A i \in 1..Len(ranges) : SizeOf(rs, st, u, cpt, ranges[i][1], ranges[i][2]) <= lim
+        \A i \in 1..Len(sizes) : (IF u = "tokens" THEN sizes[i] \div cpt ELSE sizes[i]) <= lim
 
 \* first broken clause, "" if none
-SplitClause(rs, ranges, u, lim, cpt) ==
+SplitClause(rs, ranges, sizes, u, lim, cpt) ==
     LET st == RunStarts(rs) IN
-    IF ~Increasing(ranges, st[Len(st)]) THEN "ranges"
+    IF Len(sizes) # Len(ranges) \/ ~Increasing(ranges, st[Len(st)]) THEN "ranges"
     ELSE IF ~OnBoundaries(rs, st, ranges) THEN "boundary"
     ELSE IF ~Conserved(rs, st, ranges) THEN "conservation"
-    ELSE IF ~SizeBound(rs, st, ranges, u, lim, cpt) THEN "size-bound"
+    ELSE IF ~SizeBound(rs, sizes, u, lim, cpt) THEN "size-bound"
     ELSE ""
 
-SplitOK(rs, ranges, u, lim, cpt) == SplitClause(rs, ranges, u, lim, cpt) = ""
+SplitOK(rs, ranges, sizes, u, lim, cpt) == SplitClause(rs, ranges, sizes, u, lim, cpt) = ""
 
 \* --------------------------------------------- implementation-shaped loop
 
@@ -266,7 +267,9 @@ LoopConserv == pc = "done" => Conserved(Runs, RunStarts(Runs), pieces)
 \* sizes are taken "whitespace aside": of the piece without surrounding white space
 \* (the harness reports the ranges of the real pieces the same way)
 TrimmedPieces == [i \in 1..Len(pieces) |-> Trim(pieces[i][1], pieces[i][2])]
-LoopSize    == pc = "done" => SizeBound(Runs, RunStarts(Runs), TrimmedPieces, unit, limit, Cpt)
+PieceSizes == [i \in 1..Len(pieces) |->
+                 CharsIn(Runs, RunStarts(Runs), TrimmedPieces[i][1], TrimmedPieces[i][2])]
+LoopSize    == pc = "done" => SizeBound(Runs, PieceSizes, unit, limit, Cpt)
 \* the loop always makes progress
 Progress    == [][pc = "loop" => (pc' = "done" \/ hi' - lo' < hi - lo)]_vars
 =============================================================================
